@@ -63,6 +63,10 @@ None of these changes is committed to /repo. `tools/seedall.sh quick [ids]` repe
 
 %s
 
+Round 4 was run while the machine was occupied by the thorough tiers: its first-pass loop was stopped after two seeds
+(one missed, one caught), the other eighteen descriptions were read, obvious gaps were closed first (marked *before
+first pass* below), and the pass recorded here is the one measured afterwards on /repo.
+
 Every miss was an **alphabet gap** (a boundary value, a second participant, a particular alignment of two events in
 one block that the driver could not produce) or a **missing oracle for a clause** (e.g. flag completeness, the chain's
 own snapshot digests, "excess never shrinks"); none was a wrong oracle. Each gap was closed by a generalisation - a new
